@@ -1,16 +1,94 @@
 /-
   C04 — Version comparison is the SemVer 2.0.0 total preorder on the documented grammar.
-  Property theorems only; helper lemmas live in ModVerif/Proofs/Semver*.lean.
+  Property theorems only; helper lemmas live in ModVerif/Proofs/{Cmp,CmpList,BytesOrder,SemverOrder}.lean.
+
+  `Semver.compare`, `Semver.parse`, … are the executable model of semver.go (ModVerif.Model.Semver),
+  tied to the Go code by the correspondence run of every check.
 -/
 import ModVerif.Model.Semver
+import ModVerif.Proofs.SemverOrder
 namespace ModVerif.Props.C04
 open ModVerif ModVerif.Semver
 
+/-- **Order characterisation.** `Compare v w` is the comparison of the keys of `v` and `w` in a strict
+total order on keys: invalid versions have key `none` (lowest, all equal); a valid version has key
+`(major, minor, patch, prerelease)` compared lexicographically, numbers by (length, bytes) — which
+is numeric order for numbers without leading zeros, of ANY length —, a missing prerelease highest,
+otherwise identifier lists lexicographically with a proper prefix lower, numeric identifiers below
+alphanumeric ones, numeric by (length, bytes), alphanumeric bytewise.  (SemVer 2.0.0 §11.) -/
+theorem compare_eq_key (v w : Bytes) :
+    Semver.compare v w = optLowCmp keyCmp (vkey v) (vkey w) :=
+  Semver.compare_eq_key v w
+
+/-- the order on keys is a strict total order -/
+theorem key_order_strict_total : StrictCmp (optLowCmp keyCmp) :=
+  optLowCmp_strict keyCmp_strict
+
 /-- Compare is reflexive. -/
 theorem compare_refl (v : Bytes) : Semver.compare v v = 0 := by
-  unfold Semver.compare
-  cases h : parse v with
-  | none => rfl
-  | some p => simp [compareInt, comparePrerelease]
+  rw [compare_eq_key]; exact key_order_strict_total.refl _
+
+/-- Compare is total with values in {-1, 0, +1}. -/
+theorem compare_range (v w : Bytes) :
+    Semver.compare v w = -1 ∨ Semver.compare v w = 0 ∨ Semver.compare v w = 1 := by
+  rw [compare_eq_key]; exact key_order_strict_total.range _ _
+
+/-- Compare is antisymmetric: swapping the arguments negates the result. -/
+theorem compare_antisymm (v w : Bytes) : Semver.compare v w = - Semver.compare w v := by
+  rw [compare_eq_key, compare_eq_key]; exact key_order_strict_total.antisymm _ _
+
+/-- Compare is transitive (non-strict form). -/
+theorem compare_trans_le (u v w : Bytes)
+    (h1 : Semver.compare u v ≤ 0) (h2 : Semver.compare v w ≤ 0) : Semver.compare u w ≤ 0 := by
+  rw [compare_eq_key] at *; exact key_order_strict_total.le_trans h1 h2
+
+/-- Compare is transitive (strict form). -/
+theorem compare_trans_lt (u v w : Bytes)
+    (h1 : Semver.compare u v = -1) (h2 : Semver.compare v w = -1) : Semver.compare u w = -1 := by
+  rw [compare_eq_key] at *; exact key_order_strict_total.trans _ _ _ h1 h2
+
+/-- Mixed transitivity: `u < v ≤ w → u < w`. -/
+theorem compare_trans_lt_le (u v w : Bytes)
+    (h1 : Semver.compare u v = -1) (h2 : Semver.compare v w ≤ 0) : Semver.compare u w = -1 := by
+  rw [compare_eq_key] at *
+  have S := key_order_strict_total
+  rcases S.range (vkey v) (vkey w) with b | b | b
+  · exact S.trans _ _ _ h1 b
+  · rw [← (S.eq_iff _ _).1 b]; exact h1
+  · omega
+
+/-- Mixed transitivity: `u ≤ v < w → u < w`. -/
+theorem compare_trans_le_lt (u v w : Bytes)
+    (h1 : Semver.compare u v ≤ 0) (h2 : Semver.compare v w = -1) : Semver.compare u w = -1 := by
+  rw [compare_eq_key] at *
+  have S := key_order_strict_total
+  rcases S.range (vkey u) (vkey v) with a | a | a
+  · exact S.trans _ _ _ a h2
+  · rw [(S.eq_iff _ _).1 a]; exact h2
+  · omega
+
+/-- Compare returns 0 exactly when the keys agree. -/
+theorem compare_eq_zero_iff_key (v w : Bytes) : Semver.compare v w = 0 ↔ vkey v = vkey w := by
+  rw [compare_eq_key]; exact key_order_strict_total.eq_iff _ _
+
+/-- All invalid strings compare equal. -/
+theorem compare_invalid_invalid (v w : Bytes) (hv : isValid v = false) (hw : isValid w = false) :
+    Semver.compare v w = 0 := by
+  unfold isValid at hv hw
+  cases h1 : parse v <;> cases h2 : parse w <;> simp_all [Semver.compare]
+
+/-- Every invalid string is below every valid one. -/
+theorem compare_invalid_valid (v w : Bytes) (hv : isValid v = false) (hw : isValid w = true) :
+    Semver.compare v w = -1 := by
+  unfold isValid at hv hw
+  cases h1 : parse v <;> cases h2 : parse w <;> simp_all [Semver.compare]
+
+/-- non-vacuity: a 40-digit minor compares numerically above a 39-digit one; a prerelease is below
+its release; numeric identifiers are below alphanumeric ones; invalid is below valid. -/
+example : Semver.compare (B "v1.1000000000000000000000000000000000000000.0") (B "v1.999999999999999999999999999999999999999.0") = 1 := by decide +kernel
+example : Semver.compare (B "v1.2.3-rc.1") (B "v1.2.3") = -1 := by decide +kernel
+example : Semver.compare (B "v1.2.3-1") (B "v1.2.3-a") = -1 := by decide +kernel
+example : Semver.compare (B "v1") (B "v1.0.0") = 0 := by decide +kernel
+example : Semver.compare (B "1.0.0") (B "v0.0.0-0") = -1 := by decide +kernel
 
 end ModVerif.Props.C04
